@@ -222,3 +222,68 @@ def inplace_changes_of_records(w, body, reader_paths):
                 out.append((blk, t))
                 break
     return out
+
+
+def check_commit_always_inserts(cfg, w, rep, tag):
+    """A successful keyed commit has appended its index record: in every COMMIT, on the `key is Some` edge, no success return is
+    reachable without passing the index-insertion call (no "nothing changed, skip the record" fast path: the record also carries
+    this commit's time, metadata and raw metadata, and it is what makes this write the most recent one)."""
+    prog = w.prog
+    R = w.roles
+    for p in R.commits:
+        lf = prog.fns[p]
+        body = lf.body
+        cf = prog.cfg(body)
+        key = fn_key(lf)
+        ins = {blk.i for b, blk, t, g in prog.local_calls(lf) if b is body and g.path in R.index_inserts}
+        if not ins:
+            continue
+
+        def is_key(o):
+            return o.kind == "field" and o.info[1] == "key" and not o.path
+        some = match_gates(prog, body, is_key, "Some")
+        if not some:
+            rep.violation("%s-commit-inserts:%s" % (tag, key), "commit `%s` does not branch on whether it has a key" % short(lf.path),
+                          loc=body.loc(), config=cfg, rule="%s/commit-inserts" % tag)
+            continue
+        succ = [rd for rd in ret_defs(prog, body) if rd.cls in ("success", "unknown", "delegated") and rd.blk not in ins]
+        reach = set()
+        for g in some:
+            reach |= cf.reachable(g.edge[1], cut_nodes=ins)
+        bad = [rd for rd in succ if rd.blk in reach]
+        if bad:
+            rep.violation("%s-commit-inserts:%s" % (tag, key),
+                          "keyed commit `%s` can report success without appending an index record (return at %s): this write would not be "
+                          "the key's most recent record, and its time / metadata would not be recorded" % (short(lf.path), blk_loc(body, bad[0].blk)),
+                          loc=blk_loc(body, bad[0].blk), config=cfg, rule="%s/commit-inserts" % tag)
+        else:
+            rep.ob(cfg, "%s/commit-inserts" % tag, key, "every keyed success return of `%s` passes the index insertion" % short(lf.path))
+
+
+REMOVAL_ENTRY = re.compile(r"^(rm::(remove_hash|remove_hash_sync|clear|clear_sync)|index::RemoveOpts::remove(_sync)?)$")
+
+
+def check_who_may_remove_content(cfg, w, rep, tag):
+    """Content files are shared between every key (and every writer) with the same bytes: only the removal API may delete one.
+    A write, commit, link, read, lookup or listing entry point that can reach RemoveFile on a content address — a "clean up what
+    I just wrote" on some failure path, say — can delete data that other entries reference."""
+    from .fsrules import FsWorld
+    from ..provenance import shape as _shape
+    prog = w.prog
+    fw = FsWorld.get(w)
+    n = 0
+    for lf in w.public_fns():
+        if REMOVAL_ENTRY.match(short(lf.path)):
+            continue
+        for e in w.reach_effects(lf):
+            if e.kind not in ("RemoveFile", "RemoveDirAll", "RemoveDir"):
+                continue
+            shapes = {_shape(x) for x in fw.expanded(e).get("path", ())} | ({e.classes["path"][0]} if e.classes.get("path") else set())
+            if any(sh.startswith("Content") or sh.startswith("Parent(Content") for sh in shapes):
+                n += 1
+                rep.violation("%s-removes-content:%s" % (tag, fn_key(lf)),
+                              "`%s` can delete a content file (%s in `%s`) although it is not a removal entry point: content is shared by "
+                              "address, so this can destroy data other entries point to" % (short(lf.path), e.kind, short(prog.owner_fn(e.body).path)),
+                              loc=e.loc(), config=cfg, rule="%s/who-may-remove-content" % tag)
+    if not n:
+        rep.ob(cfg, "%s/who-may-remove-content" % tag, "zero-count", "only remove_hash*, RemoveOpts::remove* and clear* can reach a removal of content")
